@@ -193,7 +193,7 @@ func (e *Engine) verifyFunc(f *ssa.Function) *FnRun {
 	}
 	st := &State{run: r, regs: map[ssa.Value]*V{}, cells: map[*ssa.Alloc]*V{}, heap: map[string]string{}, ghost: map[string]string{},
 		lets: map[string]*V{}, params: map[string]*V{}, callOrd: map[string]int{}, nonNil: map[string]bool{}, iterSeen: map[int]string{},
-		guardSeen: map[string]bool{}, deferStacks: [][]*deferRec{nil}}
+		guardSeen: map[string]bool{}, ghostParams: map[string]*V{}, deferStacks: [][]*deferRec{nil}}
 	st.stack = []*ssa.Function{f}
 	a0 := mangle("alloc@0")
 	r.declare(a0, "Int")
@@ -222,6 +222,19 @@ func (e *Engine) verifyFunc(f *ssa.Function) *FnRun {
 			defer func() { recover() }()
 			vars[fv.Name()] = st.load(st.derefLoc(st.regs[fv]))
 		}()
+	}
+	st.ghostParams = map[string]*V{}
+	if r.fc != nil {
+		for _, gp := range r.fc.GhostParams {
+			t := resolveTypeIn(f.Pkg.Pkg, gp.Type)
+			if t == nil {
+				r.errs = append(r.errs, fmt.Sprintf("%s: unknown ghostparam type %s", r.relName, gp.Type))
+				continue
+			}
+			v := st.sym("ghost."+gp.Name, t)
+			vars[gp.Name] = v
+			st.ghostParams[gp.Name] = v
+		}
 	}
 	st.params = vars
 	// free variables are visible by name in clauses as their current contents (resolved through localByName)
